@@ -84,11 +84,11 @@ where
         &&& 0 <= self.o0@ <= self.old_end && 0 <= self.n0@ <= self.new_end
         &&& uniq_ok(self.old_indexes@, self.o0@, self.old_end as int) && uniq_ok(self.new_indexes@, self.n0@, self.new_end as int)
         &&& box_pre(self.old, self.ubox_o(), self.new, self.ubox_n())
-        &&& rely_pre(self.d0@, self.old, self.ubox_o(), self.new, self.ubox_n())
+        &&& rely_pre(self.d0@, self.old, self.ubox_o(), self.new, self.ubox_n(), alg_lvl(self.deadline))
     }
     /// the user's hook has received a valid script from the box start up to (uo, un)
     spec fn fed(&self, uo: int, un: int) -> bool {
-        alg_inv(*self.d, self.d0@, self.d0@.trace(), self.s@, rel_of(self.old, self.new), self.d0@.rely_st(), self.o0@, self.n0@, uo, un)
+        alg_inv(*self.d, self.d0@, self.d0@.trace(), self.s@, rel_of(self.old, self.new), alg_lvl(self.deadline), self.d0@.rely_st(), self.o0@, self.n0@, uo, un)
     }
     /// everything that does not depend on how far the driver has got
     spec fn base(&self) -> bool {
@@ -108,7 +108,7 @@ where
     /// after `finish`: the user's hook has received a complete valid script and its finish
     spec fn done(&self) -> bool {
         hook_frame(self.d0@, *self.d, Ok::<(), D::Error>(()))
-        && seg_post(self.d0@, *self.d, self.old, self.ubox_o(), self.new, self.ubox_n(), fin::<D>(), true)
+        && seg_post(self.d0@, *self.d, self.old, self.ubox_o(), self.new, self.ubox_n(), alg_lvl(self.deadline), fin::<D>(), true)
     }
 }
 ''')
@@ -159,7 +159,7 @@ m = o.find('fn finish(&mut self)', im)
 o.after('{', '''
 let ghost pre = *vstd::prelude::old(self);
 let ghost e = Ev::Finish;
-let ghost rel = rel_of(self.old, self.new);
+let ghost rel = rel_of(self.old, self.new); let ghost lvl = alg_lvl(self.deadline);
 let ghost dmid = *self.d;
 proof {
     reveal(step_rel);
@@ -167,19 +167,19 @@ proof {
     lemma_run_push(rel_true(), pre.rst0(), pre.hist@, e);
     let d0 = pre.d0@; let s = pre.s@; let r1 = d0.rely_rel(); let rs0 = d0.rely_st();
     let oc = pre.old_current as int; let nc = pre.new_current as int;
-    if d0.relies() { lemma_seg_any(rel, r1, s, pre.o0@, pre.n0@, oc, nc, rs0); lemma_mono(r1, rs0, s); }
+    if d0.relies() { lemma_seg_any(rel, r1, lvl, s, pre.o0@, pre.n0@, oc, nc, rs0); lemma_mono(r1, rs0, s); }
     // whatever state the user's hook is left in by the call below, if it satisfies the callee's
     // postcondition then the whole script is complete
-    assert forall|d1: D| #[trigger] seg_post(dmid, d1, pre.old, (pre.old_current..pre.old_end), pre.new, (pre.new_current..pre.new_end), fin::<D>(), true)
+    assert forall|d1: D| #[trigger] seg_post(dmid, d1, pre.old, (pre.old_current..pre.old_end), pre.new, (pre.new_current..pre.new_end), lvl, fin::<D>(), true)
         && err_post(dmid, d1, Ok::<(), D::Error>(()))
-        implies seg_post(d0, d1, pre.old, pre.ubox_o(), pre.new, pre.ubox_n(), fin::<D>(), true) && hook_frame(d0, d1, Ok::<(), D::Error>(())) by {
-        let s2 = choose|q: Seq<Ev>| #[trigger] seg(pre.old, pre.new, q, oc, nc, pre.old_end as int, pre.new_end as int)
+        implies seg_post(d0, d1, pre.old, pre.ubox_o(), pre.new, pre.ubox_n(), lvl, fin::<D>(), true) && hook_frame(d0, d1, Ok::<(), D::Error>(())) by {
+        let s2 = choose|q: Seq<Ev>| #[trigger] seg(pre.old, pre.new, lvl, q, oc, nc, pre.old_end as int, pre.new_end as int)
             && d1.trace() == dmid.trace() + q + fin::<D>() && (dmid.relies() ==> d1.rely_st() == run_rel(dmid.rely_rel(), dmid.rely_st(), q + fin::<D>()));
-        lemma_seg_concat(rel, s, s2, pre.o0@, pre.n0@, oc, nc, pre.old_end as int, pre.new_end as int);
+        lemma_seg_concat(rel, lvl, s, s2, pre.o0@, pre.n0@, oc, nc, pre.old_end as int, pre.new_end as int);
         assert(d0.trace() + s + s2 + fin::<D>() =~= d0.trace() + (s + s2) + fin::<D>());
         lemma_run_concat(r1, rs0, s, s2 + fin::<D>());
         assert(s + (s2 + fin::<D>()) =~= (s + s2) + fin::<D>());
-        assert(seg(pre.old, pre.new, s + s2, pre.o0@, pre.n0@, pre.old_end as int, pre.new_end as int));
+        assert(seg(pre.old, pre.new, lvl, s + s2, pre.o0@, pre.n0@, pre.old_end as int, pre.new_end as int));
     }
 }
 ''', start=m, stmt=False, ind='        ')
@@ -197,12 +197,13 @@ o.save()
 
 # =====================================================================================================
 o = Overlay('/verif/contracts/patience.rs')
-CONTRACT = '''
-    requires diff_pre(*vstd::prelude::old(d), old, old_range, new, new_range),
+def contract(lv):
+    return '''
+    requires diff_pre(*vstd::prelude::old(d), old, old_range, new, new_range, LVL),
     ensures
         err_post(*vstd::prelude::old(d), *final(d), res),
-        seg_post(*vstd::prelude::old(d), *final(d), old, old_range, new, new_range, fin::<D>(), res.is_ok()),
-'''
+        seg_post(*vstd::prelude::old(d), *final(d), old, old_range, new, new_range, LVL, fin::<D>(), res.is_ok()),
+'''.replace('LVL', lv)
 dd = o.find('pub fn diff_deadline<Old, New, D>(')
 o.lines[dd:dd] = ghost('''
 #[verifier::external_body]  // assumed contract. The body is verified as diff_deadline__shadow below up to the assertion that the user's
@@ -210,7 +211,7 @@ o.lines[dd:dd] = ghost('''
 // (the &mut parameter is moved into the struct) is what Verus cannot resolve - see DESIGN.md section 5 C01.
 ''')
 dd = o.find('pub fn diff_deadline<Old, New, D>(')
-o.before('{', CONTRACT, start=dd)
+o.before('{', contract('alg_lvl(deadline)'), start=dd)
 o.after('{', '''
 let ghost ud0 = *d;
 ''', start=dd, stmt=False, ind='    ')
@@ -220,7 +221,7 @@ hist: Ghost(Seq::empty()), d0: Ghost(ud0), s: Ghost(Seq::empty()), o0: Ghost(old
 ''', '        ')
 dd = o.find('pub fn diff_deadline__shadow<Old, New, D>(')
 o.before('{', '''
-    requires diff_pre(*vstd::prelude::old(d), old, old_range, new, new_range),
+    requires diff_pre(*vstd::prelude::old(d), old, old_range, new, new_range, alg_lvl(deadline)),
 ''', start=dd)
 o.after('{', '''
 let ghost ud0 = *d;
@@ -236,7 +237,7 @@ proof {
     d.rst0@ = canon(0, 0, old_indexes@.len() as int, new_indexes@.len() as int);
     lemma_uniq_len(old_indexes@, old_range.start as int, old_range.end as int);
     lemma_uniq_len(new_indexes@, new_range.start as int, new_range.end as int);
-    lemma_seg_empty(rel_of(old, new), old_range.start as int, new_range.start as int);
+    lemma_seg_empty(rel_of(old, new), alg_lvl(deadline), old_range.start as int, new_range.start as int);
     lemma_run_empty(ud0.rely_rel(), ud0.rely_st());
     lemma_run_empty(rel_true(), d.inner().rst0());
     assert(ud0.trace() + Seq::<Ev>::empty() =~= ud0.trace());
@@ -248,12 +249,12 @@ let ghost rp0 = d;
 i = o.find('Ok(())', dd)
 o.lines[i:i] = ghost('''
 proof {
-    let rp = d;
+    let rp = d; let lvl = alg_lvl(deadline);
     let ol = old_indexes@.len() as int; let nl = new_indexes@.len() as int;
-    let s1 = choose|q: Seq<Ev>| #[trigger] seg(&old_indexes, &new_indexes, q, 0, 0, ol, nl)
+    let s1 = choose|q: Seq<Ev>| #[trigger] seg(&old_indexes, &new_indexes, lvl, q, 0, 0, ol, nl)
         && rp.trace() == rp0.trace() + q + fin::<Replace<Patience<Old, New, D>>>()
         && (rp0.relies() ==> rp.rely_st() == run_rel(rp0.rely_rel(), rp0.rely_st(), q + fin::<Replace<Patience<Old, New, D>>>()));
-    lemma_seg_any(rel_of(&old_indexes, &new_indexes), rp0.rely_rel(), s1, 0, 0, ol, nl, rp0.rely_st());
+    lemma_seg_any(rel_of(&old_indexes, &new_indexes), rp0.rely_rel(), lvl, s1, 0, 0, ol, nl, rp0.rely_st());
     lemma_run_fin::<Replace<Patience<Old, New, D>>>(rp0.rely_rel(), rp0.rely_st(), s1);
     reveal(step_rel);
     assert(rp.rely_st().ok && rp.rely_st().fin);
@@ -268,7 +269,7 @@ proof {
 }
 ''', '    ')
 df = o.find('pub fn diff<Old, New, D>(')
-o.before('{', CONTRACT, start=df)
+o.before('{', contract('alg_lvl(None)'), start=df)
 u = o.find('#[verifier::external_body]  // assumed contract: HashMap', code_only=False)
 o.lines[u:u] = ghost('''
 /// a strictly increasing list inside [lo, hi) has at most hi - lo entries
